@@ -449,6 +449,10 @@ class Report(object):
         if not held:
             return
         self.findings = keep
+        if os.environ.get("RIGVERIF_SHOW_WITHHELD"):
+            for fd in held:
+                print("WITHHELD %s %s: %s" % (fd.rule, fd.instance,
+                                              fd.message))
         for fd in held:
             for ob in self.obligations:
                 if ob.get("ok") is False and ob["rule"] == fd.rule and \
